@@ -326,6 +326,47 @@ def main(chk):
   chk.count('C18:rng')
   if float(m()[0]) != 2.0:
     chk.violation('C18:ToNNX:rng', 'a wrapped Linen module that uses make_rng does not return the Linen result', {})
+  # sharding metadata with logical names + rules: the spec Linen derives from the converted variables is the NNX one
+  RULES = (('embed', None), ('hidden', 'model'))
+
+  class ShLin(nnx.Module):
+    def __init__(self, rngs, rules=True):
+      init = nnx.with_partitioning(lambda k, s: jnp.ones(s), ('embed', 'hidden'), **({'sharding_rules': RULES} if rules else {}))
+      self.w = nnx.Param(init(rngs.params(), (4, 3)))
+      self.b = nnx.Param(jnp.zeros((3,)), sharding=('model',))
+
+    def __call__(self):
+      return jnp.sum(self.w.value) + jnp.sum(self.b.value)
+  for rules in (True, False):
+    key = f'C18:ToLinen:sharding-rules:{"on-the-variable" if rules else "from-logical_axis_rules"}'
+    chk.count(key)
+    try:
+      import contextlib
+      ctx = contextlib.nullcontext() if rules else nn.logical_axis_rules(RULES)
+      variables = bridge.to_linen(ShLin, rules=rules).init(jax.random.key(0))
+      with ctx:
+        want = nnx.get_partition_spec(nnx.state(ShLin(nnx.Rngs(0), rules=rules)))
+        got = nn.get_partition_spec(variables)['params']
+      if got['w'] != want['w'].value or got['b'] != want['b'].value:
+        chk.violation(key, f'partition specs of the converted Linen variables {dict(got)}, of the NNX module w={want["w"].value} b={want["b"].value}', {})
+    except Exception as e:
+      chk.violation(key, f'raised {type(e).__name__}: {str(e)[:200]}', {})
+  # a failing lazy_init leaves an initialised wrapper as it was (a stuttering step of the specification)
+  chk.count('C18:ToNNX:failed-lazy_init')
+  try:
+    w = bridge.ToNNX(Layer(()), rngs=nnx.Rngs(0))
+    bridge.lazy_init(w)
+    first = float(w(mutable=['batch_stats']))
+    try:
+      bridge.lazy_init(w, method='no_such_method')
+    except Exception:
+      pass
+    second = float(w(mutable=['batch_stats']))
+    if (first, second) != (3.0, 4.0):
+      chk.violation('C18:ToNNX:failed-lazy_init', f'two mutable calls around a failing (caught) lazy_init return {first}, {second}; expected 3.0, 4.0 '
+                                                  '(the wrapper kept neither its state nor its apply mode)', {})
+  except Exception as e:
+    chk.violation('C18:ToNNX:failed-lazy_init', f'raised {type(e).__name__}: {str(e)[:200]}', {})
   # call-time rngs: the wrapped module must see the caller's keys (as linen.apply with those keys would), and the wrapper's own
   # streams must not be consumed by such a call
   class KeyLayer(nn.Module):
